@@ -159,6 +159,8 @@ func genTx(r *kit.Rng, pool [][]byte, prevs []prevRef, salt uint32) *wire.MsgTx 
 			p := prevs[r.Intn(len(prevs))]
 			in.prev = p.hash
 			in.index = uint32(r.Intn(p.nout + 1))
+		} else if r.Chance(1, 8) {
+			in.index = 0xffffffff // the null outpoint (coinbase-like input)
 		} else {
 			copy(in.prev[:], r.Bytes(32))
 			in.index = uint32(r.Intn(3))
